@@ -23,6 +23,7 @@ import (
 
 	"github.com/golang/protobuf/proto"
 	"github.com/openacid/slim/array"
+	"reflect"
 )
 
 // ---- element types -------------------------------------------------------
@@ -1077,6 +1078,7 @@ var c16WireSeeds [][]byte
 func init() {
 	register("C16", func(c *Ctx) {
 		c16WireSeeds = nil
+		c16SameNameTypes(c)
 		c.Or.Rule = "cases: (shape x element type) over index sets in [0,2^20): empty, single, dense, holes, sparse, emptywords, boundary (63/64/127/128..), wide; " +
 			"element types u16,u32,u64,i16,i32,i64 (typed + generic array), structs s1{i32,u16}, s2{u8,i64,i16,u32} (type encoder), s3{u16,i32,u8} (hand-written encoder); " +
 			"field values: extremes, random magnitudes, random 64-bit patterns; invalid: equal/swapped/dropped neighbour at first/last/random position, lengths off by +-k; " +
@@ -1828,5 +1830,60 @@ func c16WireCases(c *Ctx, seedMsgs [][]byte) {
 		c.Or.Case("X "+c16Hex(b), len(b) > 0)
 		c.Or.Count("class:wire-bytes")
 		c.Or.Count("wirebytes:" + cls)
+	}
+}
+
+// Two DIFFERENT fixed-size struct types that print the same type name (function-local types
+// called "item", as equal package names under different import paths would give): generic arrays
+// of both are built one after the other in one process and every element must come back as
+// supplied - anything keyed by the type's NAME instead of the type confuses them.
+func c16ItemsA(n int) (interface{}, func(v interface{}, i int) bool) {
+	type item struct {
+		X int32
+		Y int32
+	}
+	vs := make([]item, n)
+	for i := range vs {
+		vs[i] = item{X: int32(i + 1), Y: int32(-i)}
+	}
+	return vs, func(v interface{}, i int) bool { x, ok := v.(item); return ok && x == vs[i] }
+}
+
+func c16ItemsB(n int) (interface{}, func(v interface{}, i int) bool) {
+	type item struct {
+		ID    uint16
+		Score int64
+		Tag   uint8
+	}
+	vs := make([]item, n)
+	for i := range vs {
+		vs[i] = item{ID: uint16(i + 1), Score: int64(-1 - i), Tag: uint8(200 + i)}
+	}
+	return vs, func(v interface{}, i int) bool { x, ok := v.(item); return ok && x == vs[i] }
+}
+
+func c16SameNameTypes(c *Ctx) {
+	idx := []int32{1, 5, 64, 65, 300}
+	for round, mk := range []func(int) (interface{}, func(interface{}, int) bool){c16ItemsA, c16ItemsB, c16ItemsA} {
+		vs, same := mk(len(idx))
+		res, p := protect(func() string {
+			a, err := array.New(idx, vs)
+			if err != nil {
+				return "build error: " + err.Error()
+			}
+			for i, ix := range idx {
+				v, ok := a.Get(ix)
+				if !ok || !same(v, i) {
+					return fmt.Sprintf("Get(%d) = %#v, %v; supplied %#v", ix, v, ok, reflect.ValueOf(vs).Index(i).Interface())
+				}
+			}
+			return ""
+		})
+		c.Or.Count("same-name-struct-types")
+		if res != "" {
+			c.Or.Violate("C16:same-name-struct-types", fmt.Sprintf("generic arrays of two different struct types with the same type name, built one after the other (round %d): %s %s", round, res, p),
+				map[string]interface{}{"indexes": idx, "round": round, "got": res})
+			return
+		}
 	}
 }
